@@ -322,6 +322,40 @@ def run(ctx: Ctx) -> int:
                           "to_matrix() differs from the ordered product of documented matrices (up to global phase)",
                           {"text": small[0]})
             break
+    # the matrix reported for a circuit OBJECT that is mutated between calls (pop / append / += / *=) is the matrix of its current text
+    for k in range(25 if ctx.quick else 400):
+        text, ops = random_circuit(rng, names1, names2, nq_max=3, depth_max=6)
+        extra, _ = random_circuit(rng, names1, names2, nq_max=2, depth_max=3)
+        steps = []
+        try:
+            c = tsim.Circuit(text)
+            np.asarray(c.to_matrix())
+            c.tcount()
+            for _s in range(int(rng.integers(1, 4))):
+                op = ["pop", "append", "iadd", "imul", "pop"][int(rng.integers(0, 5))]
+                if op == "pop" and len(c) > 1:
+                    c.pop()
+                elif op == "append":
+                    c.append_from_stim_program_text(extra)
+                elif op == "iadd":
+                    c += tsim.Circuit(extra)
+                elif op == "imul":
+                    c *= 2
+                else:
+                    continue
+                steps.append(op)
+                M = np.asarray(c.to_matrix())
+                F = np.asarray(tsim.Circuit(str(c)).to_matrix())
+                ctx.count(("mutate", text, tuple(steps)), nontrivial=True, bucket="matrix-after-mutation")
+                if M.shape != F.shape or not np.allclose(M, F, atol=1e-6) or c.tcount() != tsim.Circuit(str(c)).tcount():
+                    ctx.violation("matrix-after-mutation:" + text.replace("\n", ";")[:40] + ":" + ",".join(steps),
+                                  f"after {steps} the circuit object reports a matrix / T-count that is not the one of its current text {str(c)!r}",
+                                  {"text": text, "extra": extra, "steps": steps, "kind": "mutation"})
+                    break
+        except Exception as e:
+            ctx.violation("matrix-after-mutation-raises", f"{steps}: raised {e!r}", {"text": text, "extra": extra, "steps": steps, "kind": "mutation"})
+        if ctx.violations:
+            break
     if ctx.broken and not ctx.violations:
         report_broken_without_input(ctx)
     return ctx.finish(
